@@ -49,6 +49,7 @@ pub uninterp spec fn nanos(d: std::time::Duration) -> int;
 pub broadcast proof fn axiom_nanos_nonneg(d: std::time::Duration) ensures #[trigger] nanos(d) >= 0 { }
 
 pub assume_specification<T> [std::mem::drop] (_0: T);
+pub assume_specification<T: Default> [core::mem::take] (dest: &mut T) -> (r: T) ensures r == *old(dest);
 
 // module tree of the rodbus crate (contents are fragments; every item text comes from /repo)
 pub mod error {
